@@ -95,6 +95,7 @@ def const(v) -> T:
 NONE = const(None)
 TRUE = const(True)
 FALSE = const(False)
+NORETURN = mk("ext", "<noreturn>")   # result of a call that always raises
 
 
 def is_const(t: T) -> bool:
